@@ -1,6 +1,11 @@
 HOOK_COMMITS = []
 NOT_APPLICABLE = {}
 TEXTS = {
+ "C13": {
+  "technique": "property-based testing (rapid): generated collections x filters x sorts x skip/limit through the driver API, checked against validity predicates (permutation, order, stability, exact window) and a reference matcher / comparator",
+  "level_text": "Generated search over collections, filters, sort specifications and windows, executed through lungo's driver API, with validity oracles that admit exactly the outputs the property allows: permutation of the matching set, monotone under the reference sort key, ties in insertion order, windows equal to slices of the full ordering, sorted single-document writes hitting the first element, Distinct ascending and set-equal to the reference value set. Sampling, not proof.",
+  "level_note": "Trusts ref.Cmp/ref.Match/ref.Walk; empty-array and through-array sort keys are outside the order check (DESIGN.md 8.3).",
+ },
  "C11": {
   "technique": "property-based testing (rapid): differential against an independent reference for single operators, driver-level idempotence / modified-count / rejection-as-a-whole, operator-independence and positional-operator metamorphic relations",
   "level_text": "Generated search with four oracles: differential agreement of mongokit.Apply with an independently written reference of MongoDB's update semantics for every operator (type promotion, path creation, $push modifiers, $pull conditions), driver-level invariants (rejected update leaves bytes unchanged, ModifiedCount iff bytes changed, idempotence of the seven idempotent operators), equality of a combined update with its operators applied one at a time, and equality of $[] / $[id] with explicit element paths chosen by the reference matcher. Sampling, not proof.",
